@@ -12,6 +12,9 @@ import (
 	"sort"
 	"strings"
 
+	"github.com/AliceO2Group/Control/common/event"
+	"github.com/AliceO2Group/Control/common/gera"
+	"github.com/AliceO2Group/Control/common/utils/uid"
 	"github.com/AliceO2Group/Control/core/workflow"
 	"github.com/spf13/viper"
 
@@ -70,7 +73,7 @@ func c15Case(c *vlib.Ctx, e *inproc.Env, idx int) {
 	r := c.SubRand(int64(idx))
 	prefix := fmt.Sprintf("p%db%dx%d", c.Seed, c.Batch, idx)
 	p := genProgram(r, prefix, idx)
-	tree, rootReason, st := Predict(p.root, Layer{})
+	tree, rootReason, st := Predict(p.root, p.env())
 	wantErr := len(st.Errs) > 0
 	id := c.Case(p)
 	if idx%37 == 0 {
@@ -195,12 +198,34 @@ func c15Case(c *vlib.Ctx, e *inproc.Env, idx int) {
 		}
 	}
 
+	// environment-wide user variables reach Load the way the environment hands them over
+	var parent workflow.Updatable
+	if len(p.UserVars) > 0 {
+		envID := uid.New()
+		gd, gv, gu := gera.MakeMap[string, string](), gera.MakeMap[string, string](), gera.MakeMapWithMap(copyMap(p.UserVars))
+		parent = workflow.NewParentAdapter(
+			func() uid.ID { return envID },
+			func() uint32 { return 0 },
+			func() gera.Map[string, string] { return gd },
+			func() gera.Map[string, string] { return gv },
+			func() gera.Map[string, string] { return gu },
+			func(event.Event) {},
+		)
+		c.Count("programs_with_user_variables", 1)
+		if len(p.UserCollisions) > 0 {
+			c.Count("programs_with_user_variable_named_like_an_iteration_variable", 1)
+		}
+	}
+	if p.RoleCollisions > 0 {
+		c.Count("programs_with_role_level_entry_named_like_an_iteration_variable", 1)
+	}
+
 	var outs []loadOutcome
 	order := r.Perm(8)
 	for rep := 0; rep < 2; rep++ {
 		for _, s := range order {
 			setSwitches(s)
-			root, err := e.Load(p.RootName, nil, nil, nil)
+			root, err := e.Load(p.RootName, parent, nil, nil)
 			c.Count("loads", 1)
 			o := loadOutcome{Setting: s, Rep: rep}
 			if err != nil {
@@ -224,7 +249,7 @@ func c15Case(c *vlib.Ctx, e *inproc.Env, idx int) {
 		for h := 0; h < 32; h++ {
 			s := 2 | (h & 1) | (h&2)<<1 // iterator processing concurrent; the two others alternate
 			setSwitches(s)
-			root, err := e.Load(p.RootName, nil, nil, nil)
+			root, err := e.Load(p.RootName, parent, nil, nil)
 			c.Count("loads", 1)
 			c.Count("hunt_loads", 1)
 			o := loadOutcome{Setting: s, Rep: 2 + h}
